@@ -54,7 +54,7 @@ let index_of x l = let rec go i = function [] -> -1 | y :: r -> if y = x then i 
    (Subscribe incl. tickMu, Unsubscribe, publishTick with its stepwise Range, AppendSnapshot with its stepwise Range). *)
 type sstate = { mutable s : shared; mutable ss : sshared; mutable slots : href list }
 
-let run_seq (f : string list) (variant : string) : string =
+let run_seq (f : string list) (impl : string) (variant : string) : string =
   match f with
   | _ :: kind :: cap :: nl :: bk :: ops ->
     (* "-" = Buckets left empty => DefaultHistogramBuckets 0.005 .. 10; the harness observes integers only, and for an integer
@@ -84,7 +84,8 @@ let run_seq (f : string list) (variant : string) : string =
       | Some (ResB false) -> "0" | Some (ResH RTomb) -> "t"
       | Some (ResH (RH id)) -> "h" ^ string_of_int (index_of (RH id) st.slots) in
     let nactive () = List.length (List.filter (fun b -> not b.sb_unsub) st.ss.ss_subs) in
-    let out = List.map (fun tok ->
+    let impl_toks = Array.of_list (tokens impl) in
+    let out = List.mapi (fun opi tok ->
       let p = String.split_on_char ':' tok in
       match p with
       | ["r"; t] ->
@@ -117,8 +118,16 @@ let run_seq (f : string list) (variant : string) : string =
            "|subs=" ^ decimal_of_z st.ss.ss_nsubs ^ "|sd=" ^ String.concat "," sd ^ "}"
          | _ -> "SNAPSHOT-BLOCKED")
       | ["sub"; b] ->
-        (match run_aux (SSubscribe (z_of_decimal b)) with
-         | Some _ -> "sub" ^ string_of_int (List.length st.ss.ss_subs - 1)
+        (* BufferSize <= 0: the default capacity is the implementation's choice (the property does not fix it): take the
+           capacity it reports; every capacity is admissible.  BufferSize > 0 must be honoured exactly. *)
+        let dflt = (try (let it = impl_toks.(opi) in
+                         int_of_string (String.sub it (String.index it '/' + 1) (String.length it - String.index it '/' - 1)))
+                    with _ -> 256) in
+        (match run_aux (SSubscribe (z_of_decimal b, nat_of_int (max 0 dflt))) with
+         | Some _ ->
+           let k = List.length st.ss.ss_subs - 1 in
+           let capk = (match nth_opt st.ss.ss_subs k with Some sb -> int_of_nat sb.sb_cap | None -> -1) in
+           "sub" ^ string_of_int k ^ "/" ^ string_of_int capk
          | None -> "SUBSCRIBE-BLOCKED")
       | ["unsub"; k] ->
         let k = int_of_string k in
@@ -371,26 +380,32 @@ let () =
     let out = try
         (match f with
          | [] -> ""
-         | "seq" :: _ -> run_seq f variant
+         | "seq" :: _ -> run_seq f il variant
          | ("conc" | "rconc") :: _ -> run_conc f il variant
          | ("reg" | "rreg") :: _ -> run_reg f il variant
-         | ("bulk" | "rbulk") :: _ :: cap :: n :: g :: _ ->
-           (* bulk <kind> <cap> <n> <g>: n distinct tuples resolved (and emitted to once) by g goroutines on a metric registered
-              with MaxSeriesPerMetric = cap (0 = left at its zero value).  Too many series for exploration; admissible is what
-              the theorems allow at quiescence: series <= eff_cap (C20_conc_cap / C20_default_cap), seriesCount = series,
-              every one of the n emissions either in its own series (value 1 each) or a cardinality drop through a tombstone
-              (C20_conc_series_exact / per-tuple conservation), nothing unknown or stale.  Sequentially (g = 1) the machine is
-              deterministic: exactly min(n, eff_cap) series. *)
-           let capz = int_of_z (eff_cap (z_of_int (int_of_string cap))) and n = int_of_string n and g = int_of_string g in
+         | ("bulk" | "rbulk") :: _ :: cap :: nspec :: g :: _ ->
+           (* bulk <kind> <cap> <n | +k> <g>: n distinct tuples (or k more than the package's default cap) resolved and emitted to
+              once by g goroutines on a metric registered with MaxSeriesPerMetric = cap (0 = left at its zero value).  The VALUE
+              of the default cap is the implementation's choice (the harness reports its exported constant as dcap; any positive
+              value is admissible).  Too many series for exploration; admissible is what the theorems allow at quiescence:
+              series <= effective cap (C20_conc_cap / C20_default_cap), seriesCount = series, every one of the n emissions in
+              its own series (value 1 each) or a cardinality drop through a tombstone, nothing unknown or stale.  Sequentially
+              (g = 1) the machine is deterministic: exactly min(n, effective cap) series. *)
            let get k = (try Scanf.sscanf (List.find (fun t -> String.length t > String.length k && String.sub t 0 (String.length k + 1) = k ^ "=")
                                             (tokens il)) (Scanf.format_from_string (k ^ "=%d") "%d") (fun x -> x) with _ -> -1) in
+           let dcap = get "dcap" and n = get "n" and g = int_of_string g in
+           let plus = String.length nspec > 0 && nspec.[0] = '+' in
+           let kx = int_of_string (if plus then String.sub nspec 1 (String.length nspec - 1) else nspec) in
+           let n_ok = dcap >= 1 && (if plus then n = dcap + kx else n = kx) in
+           let capz = int_of_z (eff_cap_with (z_of_int (max dcap 1)) (z_of_int (int_of_string cap))) in
            let series = get "series" and drops = get "drops" and tombs = get "tombs" and sum = get "sum" and cnt = get "count"
            and unk = get "unknown" and st = get "stale" in
            let expect = if capz > 0 then min n capz else n in
-           let ok = series >= 0 && (capz <= 0 || series <= capz) && cnt = series && sum = series && tombs = drops
+           let ok = n_ok && series >= 0 && (capz <= 0 || series <= capz) && cnt = series && sum = series && tombs = drops
                     && series + drops = n && unk = 0 && st = 0 && (g > 1 || series = expect) in
            if ok then il else
-           Printf.sprintf "bulk series=%d drops=%d tombs=%d sum=%d count=%d unknown=0 stale=0" expect (n - expect) (n - expect) expect expect
+           Printf.sprintf "bulk n=%d dcap=%d series=%d drops=%d tombs=%d sum=%d count=%d unknown=0 stale=0"
+             (if plus then max dcap 1 + kx else kx) (max dcap 1) expect (n - expect) (n - expect) expect expect
          | ("churn" | "rchurn") :: _ ->
            (* Arbitrarily long unregister / re-create / emit loops: no exploration, the theorems decide.  For EVERY program
               list and schedule of the repaired machine a quiescent state has no orphan (C20_conc_no_orphan), every handle
